@@ -1496,6 +1496,7 @@ fn crash_enumerate(ctx: &mut Ctx, scn: &StoreScn, rel: &str, hist: Vec<OpRec>, l
     }
     ctx.out.evaluations = images.max(1);
     ctx.out.nontrivial = images > 1;
+    *ctx.out.faults.entry(if power { "power_loss_image".to_string() } else { "process_kill_image".to_string() }).or_insert(0) += images;
     remove_dir(ctx, &rel);
 }
 
